@@ -6,6 +6,7 @@ CONSTANTS
   D = 1
   MaxEvents = 3
   MaxFails = 2
+  Extra = "none"
   Backoff = FALSE
   Closed = TRUE
   ObserveCb = TRUE
